@@ -140,6 +140,9 @@ inline DecoderRSHELIOS_16P<T_PointCloud>::DecoderRSHELIOS_16P(const RSDecoderPar
   this->packet_duration_ = 
     this->mech_const_param_.BLOCK_DURATION * this->const_param_.BLOCKS_PER_PKT * 2;
 
+  // single return (the initial echo mode): one MSOP block carries two firings of the 16 beams.
+  this->split_blks_per_frame_ = (this->blks_per_frame_ >> 1);
+
   calcParam();
 }
 
@@ -153,11 +156,12 @@ inline void DecoderRSHELIOS_16P<T_PointCloud>::decodeDifopPkt(const uint8_t* pac
   if (this->echo_mode_ != echo_mode)
   {
     this->echo_mode_ = echo_mode;
-    this->split_blks_per_frame_ = (this->echo_mode_ == RSEchoMode::ECHO_DUAL) ? 
-      this->blks_per_frame_ : (this->blks_per_frame_ >> 1);
-
     calcParam();
   }
+
+  // blks_per_frame_ follows the rpm of every DIFOP packet, so must the number of MSOP blocks per frame.
+  this->split_blks_per_frame_ = (this->echo_mode_ == RSEchoMode::ECHO_DUAL) ? 
+    this->blks_per_frame_ : (this->blks_per_frame_ >> 1);
 }
 
 template <typename T_PointCloud>
